@@ -1,4 +1,5 @@
 import Ldlm.Proofs.Table
+import Ldlm.Proofs.TableFifo
 import Ldlm.Proofs.CoreLock
 import Ldlm.Proofs.CoreMain
 /-!
@@ -9,6 +10,10 @@ Interleaved (M1, every schedule, any number of threads):
                             no release is ever lost while someone waits.
 * `release_serves_head`, `arrivals_at_tail` — a release hands the unit to the HEAD of the queue and
                             to nobody else; arrivals join at the tail: service in arrival order.
+* `fifo_no_overtaking`, `fifo_queue_order` — for EVERY schedule: while somebody is queued no TryLock
+                            succeeds, no Lock takes the fast path and a released unit goes to the head
+                            waiter only; the waiters still queued keep their relative order and stay
+                            ahead of every later arrival — together: service in arrival order.
 * `cancelled_never_served` — a waiter that gave up (wait time-out, caller cancel, shutdown) is out of
                             the queue, so no later release can serve it, and it does not delay the
                             others (`cancel_keeps_invariant`: the no-lost-wake-up invariant survives).
@@ -44,6 +49,23 @@ theorem cancelled_never_served (n : Str) (o o' : Obj) (t : Tid) (k : Str) (ev : 
 theorem cancel_keeps_invariant (n : Str) (o o' : Obj) (t : Tid) (k : Str) (ev : List AOp) (hi : ObjInv o)
     (hs : stepObj n o (.cancel t n k) = some (o', ev)) : ObjInv o' :=
   (stepObj_inv n o o' _ ev hi hs).1
+
+/-- while somebody is queued, the only grant any critical section can make is the hand-over to the head waiter -/
+theorem fifo_no_overtaking (n : Str) (o o' : Obj) (a : Act) (ev : List AOp) (w : Tid × Str) (q' : List (Tid × Str))
+    (hq : o.q = w :: q') (hs : stepObj n o a = some (o', ev)) :
+    ∀ op ∈ ev, (∀ m k, op ≠ .try m k true) ∧ (∀ m k, op = .grant m k → k = w.2 ∧ w ∈ o'.acq ∧ o'.q = q') :=
+  no_overtaking n o o' a ev w q' hq hs
+
+/-- every schedule: the queue at the end = (a sub-list of the queue at the start, in the same order) ++ later arrivals -/
+theorem fifo_queue_order (n : Str) (as : List Act) (o o' : Obj) (ev : List AOp) (hr : runObj n o as = some (o', ev)) :
+    ∃ keep add, o'.q = keep ++ add ∧ keep.Sublist o.q :=
+  queue_order n as o o' ev hr
+
+/-! non-vacuity: two waiters behind a holder; the Unlock hands the unit to the first one, a TryLock is
+refused while the second still waits, and the second is still queued, first in line -/
+def oF : Obj := { size := 1, cur := 1, q := [(2, [50]), (3, [51])], keys := [[49]], acq := [], plain := 3 }
+example : (runObj [120] oF [.unlock 1 [120] [49], .tryAcquire 4 [120] [52]]).map (fun r => (r.1.q, r.1.acq, r.2)) =
+    some ([(3, [51])], [(2, [50])], [.unlock [120] [49] true, .grant [120] [50], .try [120] [52] false]) := by decide
 
 /-! ### timed, sequential (M2) -/
 open Ldlm.Core
